@@ -1127,7 +1127,12 @@ func runSizeQuery(w *harness.W, r gen.R) bool {
 		return true
 	}
 	w.Case("size|" + string(cj))
+	cur := [2]int{80, 24}
 	for i, sz := range sc.Sizes {
+		if sz == cur {
+			continue // not a change: nothing is announced
+		}
+		cur = sz
 		sess.Con.SetSize(sz[0], sz[1])
 		sess.Vx.Resize()
 		announced := false
